@@ -678,7 +678,12 @@ func Expr(query *Query, current Map, expr sqlparser.Expr, opts ...ExprOption) (a
 		}
 	case *sqlparser.BinaryExpr:
 		{
-			return BinaryExpr(query, current, expr, opts...)
+			rs, err := BinaryExpr(query, current, expr, opts...)
+			if err == nil && rs != nil && (math.IsInf(*rs, 0) || math.IsNaN(*rs)) {
+				// 1e308 * 10: a result must stay a number a document can hold
+				return nil, EXPECTATION_FAILED.Extend("the result of the arithmetic expression is not a finite number")
+			}
+			return rs, err
 		}
 	case *sqlparser.Literal:
 		{
